@@ -461,7 +461,7 @@ impl Engine for GlideEngine {
     fn finish(_ex: &mut Exec, _ctx: &mut Ctx) {}
 
     fn run(rng: &mut Rng, prof: &Profile, run: u64, sink: &mut Sink<Self>) {
-        if run == 3 && prof.tier == Tier::Thorough {
+        if (run == 3 || run == 4) && prof.tier == Tier::Thorough {
             random_run_m(rng, prof, sink, true);
         } else if !prof.chaos && run % 16 == 15 {
             sweep_run(rng, sink);
@@ -573,11 +573,17 @@ fn random_run_m(rng: &mut Rng, prof: &Profile, sink: &mut Sink<GlideEngine>, mar
         t.push(Ev::SetTime(gen_time(rng, fs, n_target, chaos).to_bits()));
     }
     if marathon {
-        // a day of uptime: more samples than a 32-bit sample counter holds, then the instrument is played
+        // a day of uptime: more samples than a 32-bit sample counter holds, then the instrument is played; the glide
+        // time is re-set so that the landmarks apply, and the first step lands a few glide times before the wrap
+        let n_eff = rng.uniform(200.0, 2000.0);
+        t.push(Ev::SetTime(((n_eff / fs as f64) as f32).to_bits()));
         let x = gen_input(rng);
-        t.push(Ev::Hold(x.to_bits(), u32::MAX - rng.below(5000) as u32));
-        for _ in 0..rng.range(2, 6) {
-            t.push(Ev::Hold(gen_input(rng).to_bits(), rng.range(1, 4000) as u32));
+        let r = (rng.uniform(0.0, 6.0) * n_eff) as u32;
+        let done = t.ctx.steps.min(1_000_000) as u32;
+        t.push(Ev::Hold(x.to_bits(), u32::MAX - r - done));
+        for _ in 0..rng.range(3, 8) {
+            let k = (rng.uniform(0.5, 4.0) * n_eff) as u32;
+            t.push(Ev::Hold(gen_input(rng).to_bits(), k));
         }
     }
     // long-running blocks (where narrow counters wrap), in a small share of the runs
